@@ -80,4 +80,137 @@ theorem unfold_entry_col [Zero α] (T : Dense α) (n a c : Nat) (hn : n < T.shap
   rw [hsh, hrest, sub2ind_append_singleton rest _ _ _ hjb.length_eq, sub2ind_ind2sub hc]
   simp [sub2ind, numel]
 
+/-! ### sums over all subscripts, with one mode split off -/
+
+theorem list_sum_comm [AddCommMonoid α] {β γ : Type} (l₁ : List β) (l₂ : List γ) (f : β → γ → α) :
+    (l₁.map fun x => (l₂.map fun y => f x y).sum).sum = (l₂.map fun y => (l₁.map fun x => f x y).sum).sum := by
+  induction l₁ with
+  | nil => simp
+  | cons x l₁ ih => simp only [List.map_cons, List.sum_cons, ih, List.sum_map_add]
+
+theorem sum_allSubs_cons [AddCommMonoid α] (e : Nat) (s : List Nat) (f : List Nat → α) :
+    ((allSubs (e :: s)).map f).sum = ((allSubs s).map fun t => ((List.range e).map fun x => f (x :: t)).sum).sum := by
+  rw [allSubs_cons, List.map_flatMap, List.flatMap_def, List.sum_flatten, List.map_map]
+  congr 1
+  apply List.map_congr_left
+  intro t _
+  simp [Function.comp, List.map_map]
+
+/-- every subscript of `s` is a subscript of the other modes with a coordinate of mode `n` inserted. -/
+theorem sum_allSubs_insAt [AddCommMonoid α] (s : List Nat) (n : Nat) (hn : n < s.length) (f : List Nat → α) :
+    ((allSubs s).map f).sum =
+      ((allSubs (s.eraseIdx n)).map fun j => ((List.range (s.getD n 0)).map fun p => f (insAt j n p)).sum).sum := by
+  induction s generalizing n f with
+  | nil => simp at hn
+  | cons e s ih =>
+    cases n with
+    | zero =>
+      rw [sum_allSubs_cons]
+      simp [insAt_zero]
+    | succ n =>
+      simp only [List.length_cons, Nat.add_lt_add_iff_right] at hn
+      rw [sum_allSubs_cons, List.eraseIdx_cons_succ, sum_allSubs_cons,
+        ih n hn (fun t => ((List.range e).map fun x => f (x :: t)).sum)]
+      congr 1
+      apply List.map_congr_left
+      intro j _
+      simp only [List.getD_cons_succ, insAt_cons_succ]
+      rw [list_sum_comm]
+
+/-! ### products over the modes -/
+
+/-- insertion at position `n` for any element type. -/
+def insAtG {γ : Type} (j : List γ) (n : Nat) (a : γ) : List γ := j.take n ++ a :: j.drop n
+
+theorem insAt_eq_insAtG (j : List Nat) (n a : Nat) : insAt j n a = insAtG j n a := rfl
+
+theorem insAtG_zero {γ : Type} (j : List γ) (a : γ) : insAtG j 0 a = a :: j := by simp [insAtG]
+
+theorem insAtG_cons_succ {γ : Type} (x : γ) (j : List γ) (n : Nat) (a : γ) :
+    insAtG (x :: j) (n + 1) a = x :: insAtG j n a := by simp [insAtG]
+
+theorem zip_insAtG {γ δ : Type} (x : List γ) (y : List δ) (n : Nat) (a : γ) (b : δ)
+    (hl : x.length = y.length) (hn : n ≤ x.length) :
+    (insAtG x n a).zip (insAtG y n b) = insAtG (x.zip y) n (a, b) := by
+  induction n generalizing x y with
+  | zero => simp [insAtG_zero]
+  | succ n ih =>
+    cases x with
+    | nil => simp at hn
+    | cons x0 xs =>
+      cases y with
+      | nil => simp at hl
+      | cons y0 ys =>
+        simp only [List.length_cons, Nat.add_right_cancel_iff, Nat.add_le_add_iff_right] at hl hn
+        simp only [insAtG_cons_succ, List.zip_cons_cons, ih xs ys hl hn]
+
+theorem prod_zipWith_insAtG {β γ : Type} [CommMonoid α] (g : β → γ → α) (Fs : List β) (j : List γ) (n : Nat)
+    (a : γ) (d : β) (hn : n < Fs.length) (hj : j.length = Fs.length - 1) :
+    (List.zipWith g Fs (insAtG j n a)).prod = g (Fs.getD n d) a * (List.zipWith g (Fs.eraseIdx n) j).prod := by
+  induction Fs generalizing n j with
+  | nil => simp at hn
+  | cons A Fs ih =>
+    cases n with
+    | zero => simp [insAtG_zero]
+    | succ n =>
+      simp only [List.length_cons, Nat.add_lt_add_iff_right] at hn
+      cases j with
+      | nil => simp at hj; omega
+      | cons x j =>
+        simp only [List.length_cons, Nat.add_sub_cancel] at hj
+        rw [insAtG_cons_succ, List.zipWith_cons_cons, List.prod_cons, List.eraseIdx_cons_succ,
+          List.zipWith_cons_cons, List.prod_cons, ih j n hn (by omega)]
+        simp only [List.getD_cons_succ]
+        rw [mul_left_comm]
+
+/-- `∏_k V_k[i_k, l_k]` as it appears in `ttm` and in the Tucker denotation. -/
+def vprod [Mul α] [One α] [Zero α] (Vs : List (Mat α)) (i l : List Nat) : α :=
+  (List.zipWith (fun (V : Mat α) (p : Nat × Nat) => V.get p.1 p.2) Vs (i.zip l)).prod
+
+theorem vprod_insAt [CommSemiring α] (Vs : List (Mat α)) (c l : List Nat) (n a p : Nat) (hn : n < Vs.length)
+    (hc : c.length = Vs.length - 1) (hl : l.length = Vs.length - 1) :
+    vprod Vs (insAt c n a) (insAt l n p) = (Vs.getD n []).get a p * vprod (Vs.eraseIdx n) c l := by
+  unfold vprod
+  rw [insAt_eq_insAtG, insAt_eq_insAtG, zip_insAtG c l n a p (by omega) (by omega)]
+  exact prod_zipWith_insAtG _ Vs (c.zip l) n (a, p) [] hn (by simp [hc, hl])
+
+theorem vprod_eq_prod_range [CommSemiring α] (Vs : List (Mat α)) (i l : List Nat) (M : Nat) (hV : Vs.length = M)
+    (hi : i.length = M) (hl : l.length = M) :
+    vprod Vs i l = ∏ k ∈ range M, (Vs.getD k []).get (i.getD k 0) (l.getD k 0) := by
+  rw [← prod_map_range]
+  unfold vprod
+  congr 1
+  apply List.ext_getElem
+  · simp [hV, hi, hl]
+  · intro k h1 h2
+    simp only [List.length_zipWith, List.length_zip, hV, hi, hl, Nat.min_self] at h1
+    simp [List.getD_eq_getElem?_getD, hV, hi, hl, h1]
+
+/-- the sum over all subscripts of a product over the modes is the product of per-mode sums
+(position-indexed form). -/
+theorem sum_allSubs_prod_range [CommSemiring α] (s : List Nat) (f : Nat → Nat → α) :
+    ((allSubs s).map fun j => ∏ k ∈ range s.length, f k (j.getD k 0)).sum =
+      ∏ k ∈ range s.length, ∑ t ∈ range (s.getD k 0), f k t := by
+  have h := sum_allSubs_prod_zipWith (fun k t => f k t) (fun k => s.getD k 0) (List.range s.length)
+  have hs : (List.range s.length).map (fun k => s.getD k 0) = s := gather_range s
+  rw [hs] at h
+  rw [← prod_map_range]
+  have hr : ((List.range s.length).map fun A => ((List.range (s.getD A 0)).map (f A)).sum) =
+      (List.range s.length).map fun k => ∑ t ∈ range (s.getD k 0), f k t := by
+    apply List.map_congr_left
+    intro k _
+    rw [sum_map_range]
+  rw [← hr, ← h]
+  congr 1
+  apply List.map_congr_left
+  intro j hj
+  have hjl : j.length = s.length := (mem_allSubs.1 hj).length_eq
+  rw [← prod_map_range]
+  congr 1
+  apply List.ext_getElem
+  · simp [hjl]
+  · intro k h1 h2
+    simp only [List.length_map, List.length_range] at h1
+    simp [List.getD_eq_getElem?_getD, hjl, h1]
+
 end Pyttb
